@@ -22,6 +22,6 @@ set_option exponentiation.threshold 3000 in
 theorem Key.sub_eq_asg (cfg : Cfg) (sfh : Bool) (a b : Key) : Key.sub a b = asg cfg sfh a.toTy b.toTy := by
   cases a <;> cases b <;>
     simp [Key.sub, Key.toTy, asg, asgRecv, sameNullary, isStringFamily, floatAll, Rng.sub, Rng.all, Rng.pos, I64.min, I64.max,
-      Fl.maxFinite, tupleSize, Ty.isAny]
+      tupleSize, Ty.isAny]
 
 end Pcore.Format
